@@ -70,6 +70,11 @@ pub(crate) struct SessionEngine<S: Session> {
     pub outgoing: mpsc::Sender<SessionFrame>,
 
     pub outgoing_link_frames: mpsc::Receiver<LinkFrame>,
+
+    /// Largest frame body the connection writes to the peer. Outgoing transfers are cut to
+    /// this size before the session numbers them. It is learnt from the connection when
+    /// the event loop starts.
+    pub max_frame_body_size: usize,
 }
 
 impl<S> SessionEngine<S>
@@ -92,6 +97,7 @@ where
             incoming,
             outgoing,
             outgoing_link_frames,
+            max_frame_body_size: usize::MAX,
         };
 
         // send a begin
@@ -426,9 +432,37 @@ where
                 input_handle,
                 performative,
                 payload,
-            } => self
-                .session
-                .on_outgoing_transfer(input_handle, performative, payload)?,
+            } => {
+                // One transfer-id and one unit of the remote-incoming-window per frame
+                // on the wire: cut the transfer to the frame size first
+                let mut frames = crate::frames::amqp::split_transfer(
+                    performative,
+                    payload,
+                    self.max_frame_body_size,
+                )
+                .map_err(|_| SessionInnerError::IllegalState)?;
+                let last = frames.pop();
+                for (performative, payload) in frames {
+                    if let Some(outgoing_item) = self.session.on_outgoing_transfer(
+                        input_handle.clone(),
+                        performative,
+                        payload,
+                    )? {
+                        send_outgoing_item(
+                            &self.outgoing,
+                            outgoing_item,
+                            self.session.connection_stop_reason(),
+                        )
+                        .await?;
+                    }
+                }
+                match last {
+                    Some((performative, payload)) => self
+                        .session
+                        .on_outgoing_transfer(input_handle, performative, payload)?,
+                    None => None,
+                }
+            }
             LinkFrame::Disposition(disposition) => self
                 .session
                 .on_outgoing_disposition(disposition)
@@ -586,6 +620,25 @@ where
         }
     }
 
+    /// The frame body size of the connection's encoder; no limit if the connection has
+    /// already stopped.
+    async fn get_max_frame_body_size(&self) -> usize {
+        let (tx, rx) = oneshot::channel();
+        if self
+            .conn_control
+            .send(ConnectionControl::GetMaxFrameSize(tx))
+            .await
+            .is_err()
+        {
+            return usize::MAX;
+        }
+        match rx.await {
+            // The encoder keeps four bytes of its frame length for the rest of the header
+            Ok(max_frame_size) => max_frame_size.saturating_sub(4),
+            Err(_) => usize::MAX,
+        }
+    }
+
     #[inline]
     fn continue_or_stop_by_state(&self) -> Running {
         match self.session.local_state() {
@@ -600,6 +653,7 @@ where
 
     #[cfg_attr(feature = "tracing", tracing::instrument(name = "Session::event_loop", skip(self), fields(outgoing_channel = %self.session.outgoing_channel().0)))]
     async fn event_loop(mut self, tx: oneshot::Sender<Result<(), Error>>) {
+        self.max_frame_body_size = self.get_max_frame_body_size().await;
         let mut outcome = Ok(());
         // A closed and drained channel is ready with `None` on every poll; it is taken out of
         // the `select!` once that is seen so that the loop waits for the other channels
